@@ -17,4 +17,15 @@ CHECKS = {
                 "executing it (exact rationals and doubles) against the real Plane methods and module functions on lattice and float streams.",
         "note": COMMON_NOTE + "Modelled, not verified: vg.dot/np.sign/np.flatnonzero as list functions; Plane constructors only provide (reference_point, normal).",
     },
+    "C13": {
+        "text": "21 theorems (all in full): constructor accepts iff | |n|-1 | <= 0.1^d else ValueError (NaN normal always refused); "
+                "from_point_and_normal gives n/|n|; from_points passes through the three points with the normalised cross product on the "
+                "counter-clockwise side, collinear -> ValueError; from_points_and_vector contains both points and is parallel to the vector; "
+                "plane_normal/equation_from_points and normal_and_offset agree with from_points (single and stacked); fit_from_points passes "
+                "through the centroid and minimises the sum of squared distances (complete Rayleigh argument from an orthonormal eigenbasis); "
+                "tilted contains both points; xy/xz/yz and the default decimals are regenerated from the source. Model tied by correspondence "
+                "(Float and exact rational runs) over every constructor.",
+        "note": COMMON_NOTE + "np.linalg.eigh is a parameter of the model (its eigenpairs are passed as data; orthonormality/eigen-equation residuals "
+                "are checked by the oracle); dtype/read-only/fresh-copy are observed tags; np.cov, libm sin/cos/acos in the Float run are not verified.",
+    },
 }
